@@ -189,9 +189,16 @@ impl FinalityTracker {
                 assert_eq!(hash, block_hash, "consensus safety violation");
                 FinalizationEvent::default()
             }
-            FinalizationStatus::Finalized(hash) | FinalizationStatus::ImplicitlyFinalized(hash) => {
+            FinalizationStatus::Finalized(hash) => {
                 assert_eq!(hash, block_hash, "consensus safety violation");
                 // slot is already decided, keep that status
+                self.status.insert(*slot, status);
+                FinalizationEvent::default()
+            }
+            FinalizationStatus::ImplicitlyFinalized(_) => {
+                // slot is already decided, keep that status
+                // NOTE: The finalized chain may continue from a notarized-fallback sibling of
+                //       a notarized block that was never finalized, so the hashes can differ.
                 self.status.insert(*slot, status);
                 FinalizationEvent::default()
             }
@@ -341,10 +348,9 @@ impl FinalityTracker {
                     self.status.insert(slot, status);
                     return;
                 }
-                FinalizationStatus::Notarized(hash) => {
-                    assert_eq!(hash, &block_hash, "consensus safety violation");
-                }
-                FinalizationStatus::FinalPendingNotar => {}
+                // NOTE: A notarized block that is never finalized can have a notarized-fallback
+                //       sibling from which the finalized chain continues, hashes can differ.
+                FinalizationStatus::Notarized(_) | FinalizationStatus::FinalPendingNotar => {}
                 FinalizationStatus::ImplicitlySkipped => {
                     panic!("consensus safety violation")
                 }
